@@ -17,11 +17,18 @@ mod c12;
 mod c13;
 mod c15;
 mod c16;
+mod c06;
+mod alloc;
+mod c09;
+mod c10;
 mod common;
 mod programs;
 mod worker;
 
 use common::*;
+
+#[global_allocator]
+static GLOBAL: alloc::Counting = alloc::Counting;
 use psc_model::{
 	runner::{install_quiet_panic_hook, run_tape, CheckFn},
 	serde_json::Value,
@@ -43,6 +50,9 @@ fn tape_checks<'a>(ctx: &'a Ctx) -> Vec<(&'static str, Box<CheckFn<'a>>)> {
 		"C13" => c13::tape_checks(ctx),
 		"C15" => c15::tape_checks(ctx),
 		"C16" => c16::tape_checks(ctx),
+		"C06" => c06::tape_checks(ctx),
+		"C10" => c10::tape_checks(ctx),
+		"C09" => c09::tape_checks(ctx),
 		_ => vec![],
 	}
 }
@@ -63,6 +73,9 @@ fn run_property(ctx: &Ctx) -> Option<(Level, Report)> {
 		"C13" => c13::run(ctx),
 		"C15" => c15::run(ctx),
 		"C16" => c16::run(ctx),
+		"C06" => c06::run(ctx),
+		"C10" => c10::run(ctx),
+		"C09" => c09::run(ctx),
 		_ => return None,
 	})
 }
@@ -70,6 +83,8 @@ fn run_property(ctx: &Ctx) -> Option<(Level, Report)> {
 fn worker_budget(property: &str, name: &str) -> (u32, u32, usize) {
 	match property {
 		"C11" => c11::budget(name),
+		"C09" => c09::budget(name),
+		"C10" => c10::budget(name),
 		_ => (1000, 10, 1024),
 	}
 }
@@ -159,7 +174,7 @@ fn main() {
 	}
 	install_quiet_panic_hook();
 	self_test_or_exit();
-	if args[1] == "--worker-random" || args[1] == "--worker-tape" {
+	if args[1] == "--worker-random" || args[1] == "--worker-tape" || args[1] == "--worker-enum" {
 		// child side of the crash-recovering worker
 		let property: &'static str = Box::leak(args[2].clone().into_boxed_str());
 		let tier = if args[3] == "thorough" { Tier::Thorough } else { Tier::Quick };
@@ -170,7 +185,13 @@ fn main() {
 			eprintln!("worker: no check {name}");
 			std::process::exit(2);
 		};
-		let code = if args[1] == "--worker-random" {
+		let code = if args[1] == "--worker-enum" {
+			let n = match property {
+				"C10" => c10::n_cases(),
+				_ => 0,
+			};
+			worker::child_enum(n, &**check)
+		} else if args[1] == "--worker-random" {
 			let (q, f, t) = worker_budget(property, name);
 			worker::child_random(&ctx, name, q, f, t, &**check)
 		} else {
